@@ -52,10 +52,14 @@ def draw_backoff(ch: Choices) -> Dict[str, Any]:
         b['multiplier'] = ch.choice([1.0, 0.5, 2.0], 'backoff.multiplier')
         b['max_value'] = ch.choice([1.0, None, 0.5, 8.0], 'backoff.max')
     b['jitter'] = 0.0
+    # a jitter callable that returns a different value at every call (0.25, 0.5, 0.75, ...)
+    b['jitter_seq'] = ch.flag(1, 4, 'backoff.jitter_seq')
     j = ch.choice([0.0, 0.25, 0.5, -0.25], 'backoff.jitter')
     trial = dict(b, jitter=j)
     if all(d >= 0 for d in ref_retry.delays(trial)):
         b['jitter'] = j
+    if b['jitter_seq']:
+        b['jitter'] = 0.0
     return b
 
 
@@ -125,7 +129,13 @@ def build_strategy(desc: Optional[Dict[str, Any]]) -> Optional[pj_retry.RetryStr
         return None
     b = desc['backoff']
     j = b['jitter']
-    jitter = (lambda: j)
+    jitter: Any = (lambda: j)
+    if b.get('jitter_seq'):
+        calls = {'n': 0}
+
+        def jitter() -> float:  # noqa: F811
+            calls['n'] += 1
+            return 0.25 * calls['n']
     if b['family'] == 'periodic':
         backoff: Any = pj_retry.PeriodicBackoff(attempts=b['attempts'], interval=b['interval'], jitter=jitter)
     elif b['family'] == 'exponential':
@@ -141,12 +151,17 @@ def build_strategy(desc: Optional[Dict[str, Any]]) -> Optional[pj_retry.RetryStr
     )
 
 
+class TracerTrouble(Exception):
+    """Raised by a misbehaving tracer."""
+
+
 # --- recording tracer ----------------------------------------------------------------------------------------------
 class RecTracer(pjrpc.client.Tracer):
-    def __init__(self, world: World, idx: int, node: str):
+    def __init__(self, world: World, idx: int, node: str, raises_on_end: bool = False):
         self.world = world
         self.idx = idx
         self.node = node
+        self.raises_on_end = raises_on_end   # a misbehaving tracer (used by the twin comparison only)
 
     def on_request_begin(self, trace_context: Any, request: Any) -> None:
         w = self.world
@@ -157,6 +172,8 @@ class RecTracer(pjrpc.client.Tracer):
         w.rec(self.node, 'trace.end', tracer=self.idx, ctx=w.ordinal(trace_context), req=w.ordinal(request),
               resp=None if response is None else w.ordinal(response),
               resp_doc=None if response is None else _safe_json(response))
+        if self.raises_on_end:
+            raise TracerTrouble(f'tracer {self.idx} failed in on_request_end')
 
     def on_error(self, trace_context: Any, request: Any, error: BaseException) -> None:
         w = self.world
@@ -243,7 +260,8 @@ def run_scenario(w: World, scn: Dict[str, Any], client_async: bool, suffix: str 
     obs = Obs()
     node = 'client' + suffix
     if reuse is None:
-        tracers = [RecTracer(w, i, node) for i in range(scn['tracers'])]
+        tracers = [RecTracer(w, i, node, raises_on_end=(scn.get('tracer_raises_on_end') == i))
+                   for i in range(scn['tracers'])]
         st = Stack(
             w, client_async, scn['server_async'], None,
             client_kwargs={'strict': scn['strict'], 'tracers': tracers,
